@@ -1,4 +1,5 @@
 import Zc.Proofs.Goodbye
+import Zc.Proofs.GoodbyeClose
 /-! # C08 — withdrawn services stay withdrawn: complete goodbyes, no resurrection
 
 Model: `Zc.Goodbye.Host` (`Model/Goodbye.lean`) — registry, both outgoing queues, the broadcast tasks, the close
@@ -41,6 +42,66 @@ theorem C08_goodbyes (h h' : Host) (s : Svc) (oid : Nat) (now : Int) (out : List
   · intro r hr
     exact broadcast_ttl0 s _ r hr
 
+/-- **Goodbyes, as a run.**  (`C08_goodbyes` speaks about the task the block creates; this is what a *run* puts on the wire.)
+Unregister `s` on a host that is not closed, then the three steps of the task — due at `now`, `now + 125`, `now + 250` — with any
+enabled blocks before and between them that are quiet for the object (`Block.quietFor`: queries answered, queue insertions and timers,
+other services registered, updated, unregistered, their tasks, unregister-all — everything except `_close`, a second unregister of the
+same object and foreign steps of its goodbye tasks): the goodbye datagram of `s` — TTL-0 PTR, SRV, TXT, and every address and the NSEC
+record iff no still-registered service uses the host name (contents: `C08_goodbyes`) — is multicast by each of the three steps.
+`_partial`, two named hypotheses, both exactly the input class of a known finding:
+* `hm*` exclude `_close` before the third goodbye — `C08:goodbyes-cut-by-close` (`async_close` does not wait for a goodbye task that the
+  application did not await; `done` makes `async_send` a no-op);
+* the run is a run of the *machine*, in which an object is never mutated under its tasks; the library itself does that when the same
+  `ServiceInfo` is handed to `async_register_service` again at once — `C08:reused-info-renamed-before-goodbye` (D27, repaired): over the extended machine `Host.xrun` the full statement is
+  `C08_goodbyes_run_full` (refuted for the code before the repair: `…_refuted_without_snapshot`).
+That the three steps *are* executed at their due instants is the loop axiom (DESIGN §4), checked on every replayed trace. -/
+theorem C08_goodbyes_run_partial (h0 : Host) (hnd : h0.done = false) (s : Svc) (oid : Nat) (now : Int)
+    (hfresh : h0.tasks.filter (isBye oid) = []) (mid0 mid1 mid2 : List Block)
+    (hm0 : ∀ b ∈ mid0, b.quietFor oid = true) (hm1 : ∀ b ∈ mid1, b.quietFor oid = true) (hm2 : ∀ b ∈ mid2, b.quietFor oid = true)
+    (h3 : Host) (out : List Pkt)
+    (hrun : h0.run lower (.unregister s oid now :: (mid0 ++ .task oid (some 0) (!hostShared lower (regRemove lower h0.reg (key lower s)) s) now ::
+        (mid1 ++ .task oid (some 0) (!hostShared lower (regRemove lower h0.reg (key lower s)) s) (now + 125) ::
+        (mid2 ++ [.task oid (some 0) (!hostShared lower (regRemove lower h0.reg (key lower s)) s) (now + 250)])))) = some (h3, out)) :
+    ∃ o0 o1 o2, out = o0 ++ [goodbyePkt s (hostShared lower (regRemove lower h0.reg (key lower s)) s)] ++ o1 ++
+      [goodbyePkt s (hostShared lower (regRemove lower h0.reg (key lower s)) s)] ++ o2 ++
+      [goodbyePkt s (hostShared lower (regRemove lower h0.reg (key lower s)) s)] :=
+  unregister_run_goodbyes lower h0 hnd s oid now hfresh mid0 mid1 mid2 hm0 hm1 hm2 h3 out _ rfl hrun
+
+/-- the goodbye datagram names the service: its PTR record points to `s.name` -/
+def namesService (p : Pkt) (name : String) : Bool := p.answers.any (fun r => r.type == 12 && r.ttl == 0 && r.rdata == .ptr name)
+
+/-- full strength, over the extended machine (`Host.xrun`: blocks, and the mutation of an object under its tasks that a re-registration
+of the same object performs; `snap` = the goodbye packet is built when `async_unregister_service` is called): after
+`async_unregister_service` of `s`, whatever the application and the loop do before and between the three steps of the goodbye task —
+short of closing the instance — three datagrams withdrawing `s.name` leave -/
+def C08_goodbyes_run (snap : Bool) : Prop :=
+  ∀ (h0 : Host) (s : Svc) (oid : Nat) (now : Int) (mid0 mid1 mid2 : List XBlock) (h3 : Host) (out : List Pkt),
+    h0.done = false → h0.tasks.filter (isBye oid) = [] → (∀ x ∈ mid0 ++ mid1 ++ mid2, x.quietFor oid = true) →
+    h0.xrun lower snap (.blk (.unregister s oid now) :: (mid0 ++ .blk (.task oid (some 0) (!hostShared lower (regRemove lower h0.reg (key lower s)) s) now) ::
+      (mid1 ++ .blk (.task oid (some 0) (!hostShared lower (regRemove lower h0.reg (key lower s)) s) (now + 125)) ::
+      (mid2 ++ [.blk (.task oid (some 0) (!hostShared lower (regRemove lower h0.reg (key lower s)) s) (now + 250))])))) = some (h3, out) →
+    3 ≤ (out.filter (fun p => namesService p s.name)).length
+
+theorem goodbye_names_service (s : Svc) (ad : Bool) : namesService (broadcastPkt s (some 0) ad) s.name = true := by
+  simp [namesService, broadcastPkt, broadcastAnswers, Svc.ptr, mkRec, ttlOf, Zc.GenFacts.Register.typePtr_eq]
+
+/-- **with the goodbye packet built at call time (the D27 repair) the full statement holds**: no mutation of the object reaches the
+goodbye task.  (`GenFacts.Goodbye` ties `Host.mutate` — what the replayed tree does — to `snap = true` once the repair is in the tree.) -/
+theorem C08_goodbyes_run_snapshot : C08_goodbyes_run lower true := by
+  intro h0 s oid now mid0 mid1 mid2 h3 out hnd hfresh hq hrun
+  obtain ⟨o0, o1, o2, rfl⟩ := unregister_xrun_goodbyes lower h0 hnd s oid now hfresh mid0 mid1 mid2
+    (fun b hb => hq b (by simp [hb])) (fun b hb => hq b (by simp [hb])) (fun b hb => hq b (by simp [hb])) h3 out _ rfl hrun
+  simp only [List.filter_append, List.length_append, List.filter_cons, goodbye_names_service, goodbyePkt, if_true, List.filter_nil,
+    List.length_cons, List.length_nil]
+  omega
+
+/-- **Goodbyes in every run of the tree's own extended machine** (`Host.mutate` = what the checked tree does to a re-used object): with the
+D27 repair in the tree (`GenFacts.Goodbye.unregister_builds_goodbye`) the full statement holds — whatever is mutated, registered, queued or
+answered between the steps, short of a `_close`, three datagrams withdrawing `s.name` leave. -/
+theorem C08_goodbyes_run_full : C08_goodbyes_run lower Gen.Register.unregister_builds_goodbye_at_call := by
+  rw [unregister_builds_goodbye]
+  exact C08_goodbyes_run_snapshot lower
+
 /-- the same at close / `async_unregister_all_services`: one datagram with the TTL-0 records of every registered
 service (addresses and NSEC always included), sent at `now`, and twice more by the sequence it starts, 125 ms apart;
 the registry is emptied at once -/
@@ -78,20 +139,64 @@ theorem C08_goodbyes_all_step (h h' : Host) (due : Int) (out : List Pkt) (hd : h
   simp only [this, if_true]
   exact ⟨_, List.mem_append_right _ (List.mem_singleton.2 rfl), rfl, rfl, by simp [unregisterTime_eq, hdue]⟩
 
-/-- **No resurrection** (`_partial`: "those records" = the records the goodbye carried, up to record identity *rdata included*;
-the English-level reading by owner name and type is `C08_no_resurrection_by_name`, refuted below — known finding D20).
-Take any reachable host (`hpre`: any history from the initial state), unregister `s`, and let
-anything happen afterwards (`hrun`: any enabled blocks — task steps still pending, answers that were queued before,
-queue timers, new queries answered from the registry, other services coming and going, close) except registering again
-a service that defines one of the withdrawn records (`hno`).  Then no datagram the host sends from the unregister block
-on — in particular none after the third goodbye — carries one of the withdrawn records (up to record identity: name
-case-insensitively, type, class, rdata) with a non-zero TTL. -/
-theorem C08_no_resurrection_partial (pre : List Block) (h0 : Host) (out0 : List Pkt) (hpre : Host.init.run lower pre = some (h0, out0))
+/-! ### "… or its instance is closed"
+
+`unregisterAll` / `allStep` above are the blocks of `async_unregister_all_services`; `.close` is the private `_close`, enabled in any
+state.  The property's sentence is about the *public* close calls, `AsyncZeroconf.async_close` and `Zeroconf.close()` (from another
+thread): `asyncClose` / `syncClose` (`Model/Goodbye.lean`) are those calls as programs of blocks, the order of their two calls read off
+the source by the leaves `async_close_unregisters_all`, `async_close_goodbyes_before_done`, `sync_close_…`
+(`GenFacts.Goodbye.close_says_goodbye_first`: dropping the call or swapping the two awaits breaks this file). -/
+
+/-- the goodbye of a close carries, for every registered service, TTL-0 copies of its PTR, SRV, TXT, every address and the NSEC
+record (nothing stays registered, so no host name is "still used") -/
+theorem C08_close_goodbye_contents (h : Host) (e : Entry) (he : e ∈ h.reg) :
+    (∀ r ∈ [e.svc.ptr (some 0), e.svc.srv (some 0), e.svc.txt (some 0)] ++ e.svc.addrNsec (some 0), r ∈ (closeGoodbye h).answers) ∧
+    (∀ r ∈ (closeGoodbye h).answers, r.ttl = 0) ∧ (closeGoodbye h).additionals = [] ∧ (closeGoodbye h).authorities = [] := by
+  refine ⟨?_, ?_, rfl, rfl⟩
+  · intro r hr
+    simp only [closeGoodbye, allPkt, List.mem_flatMap]
+    exact ⟨e, he, by simpa [broadcastAnswers, Zc.GenFacts.Register.add_addresses_eq] using hr⟩
+  · intro r hr
+    simp only [closeGoodbye, allPkt, List.mem_flatMap] at hr
+    obtain ⟨e', _, hre⟩ := hr
+    exact broadcast_ttl0 e'.svc true r hre
+
+/-- full strength: whenever a public close call runs on an instance that is not closed — whatever else the loop does meanwhile — the
+goodbye of everything that was registered leaves three times -/
+def C08_close_goodbyes : Prop :=
+  ∀ (pre : List Block) (h0 : Host) (out0 : List Pkt), Host.init.run lower pre = some (h0, out0) → h0.done = false → h0.reg ≠ [] →
+  ∀ (now : Int) (mid1 mid2 : List Block) (h3 : Host) (out : List Pkt), h0.run lower (asyncClose h0 now mid1 mid2) = some (h3, out) →
+    3 ≤ (out.filter (· == closeGoodbye h0)).length
+
+/-- **Close ⇒ three goodbyes** (`_partial`: no *other* shutdown call — a second close, an `async_unregister_all_services` of the
+application — is in flight or interleaved (`hq`, `hm1`, `hm2`); overlapping closes are C17's subject, and a close racing an
+unregister-all cuts that call's sequence: known finding `C08:goodbyes-cut-by-close`).  For every host that is not closed, any instant
+and any blocks running between the goodbyes (queries answered, queue timers, task steps, registrations — a service registered *during*
+the close is C17's finding D15 and is not in `h0.reg`): `AsyncZeroconf.async_close` sends the datagram with the TTL-0 copies of every
+record of every registered service three times, then — and only then — sets `done`. -/
+theorem C08_close_goodbyes_partial (h0 : Host) (hnd : h0.done = false) (hq : h0.closing = []) (now : Int) (mid1 mid2 : List Block)
+    (hm1 : ∀ b ∈ mid1, b.isShutdown = false) (hm2 : ∀ b ∈ mid2, b.isShutdown = false) (h3 : Host) (out : List Pkt)
+    (hrun : h0.run lower (asyncClose h0 now mid1 mid2) = some (h3, out)) :
+    h3.done = true ∧ (h0.reg ≠ [] → ∃ o1 o2, out = [closeGoodbye h0] ++ o1 ++ [closeGoodbye h0] ++ o2 ++ [closeGoodbye h0]) := by
+  simp only [asyncClose, close_says_goodbye_first.1, close_says_goodbye_first.2.1] at hrun
+  exact closeCall_goodbyes lower h0 hnd hq now mid1 mid2 hm1 hm2 h3 out hrun
+
+/-- the same for the synchronous `close()` called from another thread -/
+theorem C08_sync_close_goodbyes_partial (h0 : Host) (hnd : h0.done = false) (hq : h0.closing = []) (now : Int) (mid1 mid2 : List Block)
+    (hm1 : ∀ b ∈ mid1, b.isShutdown = false) (hm2 : ∀ b ∈ mid2, b.isShutdown = false) (h3 : Host) (out : List Pkt)
+    (hrun : h0.run lower (syncClose h0 now mid1 mid2) = some (h3, out)) :
+    h3.done = true ∧ (h0.reg ≠ [] → ∃ o1 o2, out = [closeGoodbye h0] ++ o1 ++ [closeGoodbye h0] ++ o2 ++ [closeGoodbye h0]) := by
+  simp only [syncClose, close_says_goodbye_first.2.2.1, close_says_goodbye_first.2.2.2] at hrun
+  exact closeCall_goodbyes lower h0 hnd hq now mid1 mid2 hm1 hm2 h3 out hrun
+
+/-- the set form: for any sub-list `W'` of the withdrawn records, as long as no service defining one of *them* is registered again -/
+theorem C08_no_resurrection_records (pre : List Block) (h0 : Host) (out0 : List Pkt) (hpre : Host.init.run lower pre = some (h0, out0))
     (s : Svc) (oid : Nat) (now : Int) (h1 : Host) (out1 : List Pkt) (hs : h0.step lower (.unregister s oid now) = some (h1, out1))
+    (W' : List Rec) (hsub : ∀ w ∈ W', w ∈ withdrawn s (hostShared lower h1.reg s))
     (bs : List Block) (h2 : Host) (out2 : List Pkt) (hrun : h1.run lower bs = some (h2, out2))
-    (hno : ∀ b ∈ bs, ¬ reRegisters lower (withdrawn s (hostShared lower h1.reg s)) b) :
+    (hno : ∀ b ∈ bs, ¬ reRegisters lower W' b) :
     ∀ p ∈ out1 ++ out2, ∀ r ∈ p.answers ++ p.authorities ++ p.additionals,
-      r.ttl = 0 ∨ hits lower (withdrawn s (hostShared lower h1.reg s)) r = false := by
+      r.ttl = 0 ∨ hits lower W' r = false := by
   have hw := wf_run lower pre _ h0 out0 (wf_init lower) hpre
   have hreg : h1.reg = regRemove lower h0.reg (key lower s) := by
     simp only [Host.step, unregRemove_eq, Option.some.injEq, Prod.mk.injEq] at hs
@@ -104,18 +209,42 @@ theorem C08_no_resurrection_partial (pre : List Block) (h0 : Host) (out0 : List 
     have := (List.mem_filter.1 he).2
     simpa using this
   obtain ⟨hc, rfl⟩ := unregister_clean lower h0 h1 s oid now out1 hw hs hsep
-  have := run_clean lower _ bs h1 h2 out2 hc hno hrun
+  have := run_clean lower W' bs h1 h2 out2 (clean_of_subset lower _ W' h1 hsub hc) hno hrun
   intro p hp
   exact this.2 p (by simpa using hp)
 
+/-- **No resurrection**, record by record (`_partial`: "those records" = the records the goodbye carried, up to record identity *rdata
+included*; the English-level reading by owner name and type is `C08_no_resurrection_by_name`, refuted below — known finding D20).
+Take any reachable host (`hpre`: any history from the initial state), unregister `s`, take any one `w` of the records it withdraws
+(PTR, SRV, TXT; address and NSEC records when no still-registered service uses the host name), and let anything happen afterwards
+(`hrun`: any enabled blocks — task steps still pending, answers that were queued before, queue timers, new queries answered from the
+registry, *other services coming and going, also on the same host name*, close) except registering again a service that defines
+**this very record** (`hno`: `reRegisters [w]` — for the PTR / SRV / TXT only the same instance name with the same rdata qualifies; for an
+address record, a service on that host with that address).  Then no datagram the host sends from the unregister block on — in
+particular none after the third goodbye — carries `w` (up to record identity: name case-insensitively, type, class, rdata) with a
+non-zero TTL.  The obligation of one record does not end because another record of the goodbye is defined again (second review). -/
+theorem C08_no_resurrection_partial (pre : List Block) (h0 : Host) (out0 : List Pkt) (hpre : Host.init.run lower pre = some (h0, out0))
+    (s : Svc) (oid : Nat) (now : Int) (h1 : Host) (out1 : List Pkt) (hs : h0.step lower (.unregister s oid now) = some (h1, out1))
+    (w : Rec) (hw : w ∈ withdrawn s (hostShared lower h1.reg s))
+    (bs : List Block) (h2 : Host) (out2 : List Pkt) (hrun : h1.run lower bs = some (h2, out2))
+    (hno : ∀ b ∈ bs, ¬ reRegisters lower [w] b) :
+    ∀ p ∈ out1 ++ out2, ∀ r ∈ p.answers ++ p.authorities ++ p.additionals, r.ttl = 0 ∨ r.beq lower w = false := by
+  have key1 := C08_no_resurrection_records lower pre h0 out0 hpre s oid now h1 out1 hs [w] (by intro x hx; simp at hx; subst hx; exact hw) bs h2 out2 hrun hno
+  intro p hp r hr
+  rcases key1 p hp r hr with h | h
+  · exact Or.inl h
+  · right; simpa [hits] using h
+
 /-- the same after `async_unregister_all_services` (also the first half of `async_close`): none of the records of any service
-that was registered leaves with a non-zero TTL afterwards, as long as none is registered again -/
+that was registered — any sub-list `W'` of them, e.g. one record — leaves with a non-zero TTL afterwards, as long as no service
+defining one of *those* records is registered again -/
 theorem C08_no_resurrection_all (pre : List Block) (h0 : Host) (out0 : List Pkt) (hpre : Host.init.run lower pre = some (h0, out0))
     (now : Int) (h1 : Host) (out1 : List Pkt) (hs : h0.step lower (.unregisterAll now) = some (h1, out1))
+    (W' : List Rec) (hsub : ∀ w ∈ W', w ∈ h0.reg.flatMap (fun e => broadcastAnswers e.svc (some 0) true))
     (bs : List Block) (h2 : Host) (out2 : List Pkt) (hrun : h1.run lower bs = some (h2, out2))
-    (hno : ∀ b ∈ bs, ¬ reRegisters lower (h0.reg.flatMap (fun e => broadcastAnswers e.svc (some 0) true)) b) :
+    (hno : ∀ b ∈ bs, ¬ reRegisters lower W' b) :
     ∀ p ∈ out1 ++ out2, ∀ r ∈ p.answers ++ p.authorities ++ p.additionals,
-      r.ttl = 0 ∨ hits lower (h0.reg.flatMap (fun e => broadcastAnswers e.svc (some 0) true)) r = false := by
+      r.ttl = 0 ∨ hits lower W' r = false := by
   have hw := wf_run lower pre _ h0 out0 (wf_init lower) hpre
   have h0ttl : ∀ r ∈ h0.reg.flatMap (fun e => broadcastAnswers e.svc (some 0) true), r.ttl = 0 := by
     intro r hr
@@ -129,9 +258,13 @@ theorem C08_no_resurrection_all (pre : List Block) (h0 : Host) (out0 : List Pkt)
     simp only [Option.some.injEq, Prod.mk.injEq] at hs
     obtain ⟨rfl, rfl⟩ := hs
     have : h0.reg = [] := by simpa using hemp
+    have hW : W' = [] := by
+      cases W' with
+      | nil => rfl
+      | cons a t => have := hsub a (by simp); simp [‹h0.reg = []›] at this
     intro p hp r _
     right
-    simp [this, hits]
+    simp [hW, hits]
   · simp only [Option.some.injEq, Prod.mk.injEq] at hs
     obtain ⟨rfl, rfl⟩ := hs
     have hc : Clean lower (h0.reg.flatMap (fun e => broadcastAnswers e.svc (some 0) true))
@@ -149,13 +282,13 @@ theorem C08_no_resurrection_all (pre : List Block) (h0 : Host) (out0 : List Pkt)
         rcases ha with ha | rfl
         · exact hw.closing a ha
         · exact h0ttl
-    have := run_clean lower _ bs _ h2 out2 hc hno hrun
+    have := run_clean lower W' bs _ h2 out2 (clean_of_subset lower _ W' _ hsub hc) hno hrun
     intro p hp
     rw [List.mem_append] at hp
     rcases hp with hp | hp
     · have := emit_mem _ _ _ hp
       subst this
-      exact allPkt_ttl0 lower _ _ h0ttl
+      exact allPkt_ttl0 lower W' _ h0ttl
     · exact this.2 p hp
 
 /-- after `_close` (`done`) nothing is sent at all, whatever blocks still run (`async_send` is a no-op) -/
@@ -271,16 +404,25 @@ theorem C08_sync_unregister_waits : syncUnregisterGoodbyesOnReturn = 3 := by
 
 /-! ### the English-level reading: "its PTR, SRV, TXT records" by owner name and type (known finding D20) -/
 
-/-- `r` is a record *of the service instance* `s` whatever its rdata: SRV / TXT / NSEC owned by the instance name, or a PTR to it -/
-def ofService (s : Svc) (r : Rec) : Bool :=
-  ((r.type == 33 || r.type == 16 || r.type == 47) && lower r.name == lower s.name) ||
+/-- `r` is one of "those records" of the service instance `s`, whatever its rdata: SRV / TXT owned by the instance name, a PTR to it,
+and — unless another still-registered service uses the host name (`shared`) — the NSEC record of the instance name and the A / AAAA
+records of the host name.  (The first version counted the NSEC record unconditionally, which the sentence does not: second review.) -/
+def ofService (s : Svc) (shared : Bool) (r : Rec) : Bool :=
+  ((r.type == 33 || r.type == 16 || (r.type == 47 && !shared)) && lower r.name == lower s.name) ||
+  ((r.type == 1 || r.type == 28) && !shared && lower r.name == lower s.server) ||
   (r.type == 12 && (match r.rdata with | .ptr a => lower a == lower s.name | _ => false))
 
-/-- a block that registers (or updates) a service of that name again -/
+/-- a block that registers (or updates) a service of that name — or, for the address records, on that host name — again -/
 def reRegistersName (s : Svc) : Block → Bool
-  | .register s' _ _ => lower s'.name == lower s.name
-  | .update s' _ _ => lower s'.name == lower s.name
+  | .register s' _ _ => lower s'.name == lower s.name || lower s'.server == lower s.server
+  | .update s' _ _ => lower s'.name == lower s.name || lower s'.server == lower s.server
   | _ => false
+
+/-- is the host name of `s` still used by a registered service once `s` is unregistered after history `pre`? -/
+def sharedAfter (pre : List Block) (s : Svc) : Bool :=
+  match Host.init.run lower pre with
+  | some (h0, _) => hostShared lower (regRemove lower h0.reg (key lower s)) s
+  | none => false
 
 /-- history, then the unregister block, then a continuation: everything sent from the unregister block on -/
 def runThen (pre : List Block) (b : Block) (bs : List Block) : Option (List Pkt) :=
@@ -294,16 +436,16 @@ def runThen (pre : List Block) (b : Block) (bs : List Block) : Option (List Pkt)
       | none => none
       | some (_, o2) => some (o1 ++ o2)
 
-def cleanByName (s : Svc) (out : List Pkt) : Bool :=
-  out.all (fun p => (p.answers ++ p.authorities ++ p.additionals).all (fun r => r.ttl == 0 || !ofService lower s r))
+def cleanByName (s : Svc) (shared : Bool) (out : List Pkt) : Bool :=
+  out.all (fun p => (p.answers ++ p.authorities ++ p.additionals).all (fun r => r.ttl == 0 || !ofService lower s shared r))
 
 /-- full strength, as the English sentence reads to a peer whose cache keys unique records by owner name and type: after the
-unregister block no SRV / TXT / NSEC / PTR record *of that instance* — whatever its rdata — leaves with a non-zero TTL, unless the
-name is registered again -/
+unregister block no SRV / TXT / PTR record *of that instance* — whatever its rdata — and, unless the host name is still used, no NSEC
+record of the instance and no address record of the host, leaves with a non-zero TTL, unless that name (host name) is registered again -/
 def C08_no_resurrection_by_name : Prop :=
   ∀ (pre : List Block) (s : Svc) (oid : Nat) (now : Int) (bs : List Block),
     (∀ b ∈ bs, reRegistersName lower s b = false) →
-    (runThen lower pre (.unregister s oid now) bs).all (cleanByName lower s) = true   -- `none` (a block not enabled): nothing to show
+    (runThen lower pre (.unregister s oid now) bs).all (cleanByName lower s (sharedAfter lower pre s)) = true   -- `none` (a block not enabled): nothing to show
 
 private def d20old : Svc :=
   { type := "_http._tcp.local.", name := "svc._http._tcp.local.", server := "host.local.", port := 80, weight := 0, priority := 0,
@@ -331,6 +473,63 @@ example : ((Host.init.run id [.register exSvc 1 350, .task 1 none true 350, .tas
       .enqueue true 1100 60 [(exSvc.ptr none, [exSvc.srv none, exSvc.txt none] ++ exSvc.addrNsec none)],
       .unregister exSvc 1 1130, .task 1 (some 0) true 1130, .task 1 (some 0) true 1255, .task 1 (some 0) true 1380,
       .ready true 2160]).map (fun r => (r.2.length, r.1.delayq.map (·.answers.length)))) = some (6, []) := by
+  decide
+
+/-- a close with one service registered, an answer waiting in the delay queue and the queue timer firing between the goodbyes: all
+blocks are enabled, exactly the three goodbyes leave (the queued answer was purged), and the instance ends closed -/
+example : ((Host.init.run id [.register exSvc 1 350, .task 1 none true 350, .task 1 none true 575, .task 1 none true 800,
+      .enqueue true 1100 60 [(exSvc.ptr none, [exSvc.srv none, exSvc.txt none] ++ exSvc.addrNsec none)]]).bind (fun r =>
+        (r.1.run id (asyncClose r.1 1130 [.ready true 1200] [.ready true 2160])).map (fun r2 =>
+          (r2.2.map (fun p => decide (p = closeGoodbye r.1)), r2.1.done)))) = some ([true, true, true], true) := by
+  decide
+
+private def exH0 : Host :=
+  { reg := [⟨exSvc, 1⟩], outq := [], delayq := [], tasks := [announceTask exSvc 1 350], closing := [], done := false }
+
+/-- **false of the code at full strength** (known finding `C08:goodbyes-cut-by-close`, C07's `goodbyes-cut-by-close`): another
+shutdown call's `_close` between the goodbyes (two overlapping closes; or, for `async_unregister_service`, a close that does not wait
+for the running goodbye task) sets `done`, and the remaining goodbyes are dropped by `async_send` -/
+theorem C08_close_goodbyes_refuted : ¬ C08_close_goodbyes id := by
+  intro h
+  have := h [.register exSvc 1 350] exH0 [] (by decide) rfl (by decide) 1000 [.close] [] ({ exH0 with reg := [], closing := [], done := true }) [closeGoodbye exH0] (by decide)
+  revert this
+  decide
+
+private def exReg : Host := { reg := [⟨exSvc, 1⟩], outq := [], delayq := [], tasks := [], closing := [], done := false }
+private def exProg : List XBlock :=
+  [.blk (.unregister exSvc 1 1000), .mutate 1 { exSvc with name := "svc-2._http._tcp.local." },
+   .blk (.task 1 (some 0) true 1000), .blk (.task 1 (some 0) true 1125), .blk (.task 1 (some 0) true 1250)]
+
+/-- **false of the code before the D27 repair** (`C08:reused-info-renamed-before-goodbye`, now `kind: fixed`): the goodbye task reads the
+object at each step; `async_unregister_service(info)` followed at once by `async_register_service(info, allow_name_change=True)` with
+the same object renames it (`svc` → `svc-2`: the host's own announcement of `svc` is still in its cache) before the task's first step:
+three goodbyes leave, all naming `svc-2`; `svc` is never withdrawn -/
+theorem C08_goodbyes_run_refuted_without_snapshot : ¬ C08_goodbyes_run id false := by
+  intro h
+  have hc : (exReg.xrun id false exProg).map (fun r => ((r.2.filter (fun p => namesService p exSvc.name)).length,
+      (r.2.filter (fun p => namesService p "svc-2._http._tcp.local.")).length)) = some (0, 3) := by decide
+  cases hx : exReg.xrun id false exProg with
+  | none => rw [hx] at hc; simp at hc
+  | some r =>
+    obtain ⟨h3, out⟩ := r
+    rw [hx] at hc
+    simp only [Option.map_some, Option.some.injEq, Prod.mk.injEq] at hc
+    have := h exReg exSvc 1 1000 [.mutate 1 { exSvc with name := "svc-2._http._tcp.local." }] [] [] h3 out (by decide) (by decide) (by decide) hx
+    omega
+
+/-- the hypotheses of `C08_goodbyes_run_partial` / `C08_close_goodbyes_partial` are met by ordinary traffic: queue insertions, queue timers,
+other objects' tasks and this object's announcement task are quiet for object 1 and are no shutdown blocks; `_close` and a step of the object's
+own goodbye task are not -/
+example : (Block.enqueue true 1100 60 []).quietFor 1 = true ∧ (Block.ready true 1200).quietFor 1 = true ∧
+    (Block.task 2 (some 0) true 5).quietFor 1 = true ∧ (Block.task 1 none true 5).quietFor 1 = true ∧
+    (Block.unregisterAll 7).quietFor 1 = true ∧ Block.close.quietFor 1 = false ∧ (Block.task 1 (some 0) true 5).quietFor 1 = false ∧
+    (Block.ready true 1200).isShutdown = false ∧ (Block.unregister exSvc 1 3).isShutdown = false ∧ Block.close.isShutdown = true := by
+  decide
+
+/-- `C08_goodbyes_run_partial` is not vacuous: unregister, queue timers firing before and between the steps, the three steps -/
+example : (exReg.run id [.unregister exSvc 1 1000, .ready true 1000, .task 1 (some 0) true 1000, .ready false 1100,
+      .task 1 (some 0) true 1125, .ready true 1200, .task 1 (some 0) true 1250]).map
+    (fun r => r.2.map (fun p => decide (p = goodbyePkt exSvc false))) = some [true, true, true] := by
   decide
 
 /-- a service under another name on the same host keeps the address records out of the goodbye -/
